@@ -280,7 +280,10 @@ fn replay(history: &[usize], acts: &[Action], utxos: &[Utxo], pp: &PP) -> Compil
     c
 }
 
-fn run_model(store_ix: usize, pp_ix: usize, depth: usize) -> Outcome {
+/// `first`: None = the whole model in one case; Some(None) = the empty history alone; Some(Some(k)) = the histories that
+/// begin with action k (the thorough tier splits a model this way: a case stays within the per-case CPU cap and the
+/// sub-models run side by side; states are merged within a sub-model only, which is finer, never coarser)
+fn run_model(store_ix: usize, pp_ix: usize, depth: usize, first: Option<Option<usize>>) -> Outcome {
     let mut o = Outcome::default();
     let mut acts = actions();
     let utxos = store(store_ix);
@@ -314,7 +317,12 @@ fn run_model(store_ix: usize, pp_ix: usize, depth: usize) -> Outcome {
     let mut seen: HashSet<Vec<u8>> = HashSet::new();
     let mut frontier: VecDeque<Vec<usize>> = VecDeque::new();
     seen.insert(vec![]);
-    frontier.push_back(vec![]);
+    match first {
+        Some(Some(k)) if k < acts.len() => frontier.push_back(vec![k]),
+        Some(Some(_)) => {}
+        _ => frontier.push_back(vec![]),
+    }
+    let depth = if first == Some(None) { 0 } else { depth };
     let mut states = 0u64;
     let mut transitions = 0u64;
     let mut max_depth = 0u64;
@@ -371,7 +379,7 @@ fn run_model(store_ix: usize, pp_ix: usize, depth: usize) -> Outcome {
     o.count("traces_validated_against_impl", transitions);
     o.count("targets_compared", compared);
     o.max("max_depth", max_depth);
-    o.key(hash64(&("model", store_ix, pp_ix, depth)));
+    o.key(hash64(&("model", store_ix, pp_ix, depth, first)));
     o.key(hash64(&("model-states", store_ix, pp_ix, states)));
     o
 }
@@ -405,9 +413,18 @@ impl Prop for C20 {
     }
     fn enumerate(&self, tier: Tier, sink: &mut Sink) {
         let depth = if tier.is_thorough() { 4 } else { 3 };
+        // (one more than the static alphabet: the wallet sized from a fee is added per model)
+        let n_actions = actions().len();
         for s in 0..3 {
             for p in 0..3 {
-                sink.case(|| json!({"kind": "model", "store": s, "pparams": p, "depth": depth}));
+                if tier.is_thorough() {
+                    sink.case(|| json!({"kind": "model", "store": s, "pparams": p, "depth": depth, "first": "root"}));
+                    for k in 0..=n_actions {
+                        sink.case(|| json!({"kind": "model", "store": s, "pparams": p, "depth": depth, "first": k}));
+                    }
+                } else {
+                    sink.case(|| json!({"kind": "model", "store": s, "pparams": p, "depth": depth}));
+                }
             }
         }
     }
@@ -416,6 +433,11 @@ impl Prop for C20 {
             case["store"].as_u64().unwrap_or(0) as usize,
             case["pparams"].as_u64().unwrap_or(0) as usize,
             case["depth"].as_u64().unwrap_or(3) as usize,
+            match &case["first"] {
+                Value::Null => None,
+                Value::String(_) => Some(None),
+                v => Some(v.as_u64().map(|k| k as usize)),
+            },
         )
     }
 }
